@@ -15,6 +15,8 @@ import (
 // documented rules that looks only at the configuration and at the events
 // (started / exit sent / died / supervisor terminated), never at the fields of the machine.
 
+var supSigCount = map[string]int{}
+
 type simExit struct {
 	pid    uint64
 	reason string
@@ -56,13 +58,17 @@ type supSim struct {
 	fails    []int64 // times of failures that required a restart (window oracle)
 	failsKnown bool
 
+	staleOverwrite bool // D26 region entered (oracle-side classification)
+	restartFrom int // index of the child whose failure started the restart that is in progress, -1 = none
+	stopAllPending bool // one-for-one sent exits from the exit dispatch: it is stopping all children
+	startDuringShutdown bool // D27 region entered
 	handledDeaths int
 	violated      bool
 }
 
 func newSupSim(c *Ctx, g *Rng, cfg supCfg) *supSim {
 	s := &supSim{c: c, g: g, cfg: cfg, kids: map[uint64]int{}, alive: map[uint64]int{}, args: map[uint64]int{}, exitSent: map[uint64]string{},
-		nextPid: 100, enabled: map[int]bool{}, sig: map[int]bool{}, lastExit: map[int]string{}, exposedD25: map[int]bool{}, failsKnown: true}
+		nextPid: 100, restartFrom: -1, enabled: map[int]bool{}, sig: map[int]bool{}, lastExit: map[int]string{}, exposedD25: map[int]bool{}, failsKnown: true}
 	for _, ch := range cfg.Children {
 		s.order = append(s.order, ch.Name)
 		s.enabled[ch.Name] = true
@@ -92,8 +98,23 @@ func (s *supSim) violation(sig, what string) {
 	if s.violated {
 		return
 	}
+	if s.staleOverwrite {
+		switch sig {
+		case "C08/terminated-with-running-children", "C08/prescribed-set", "C08/duplicate-child", "C08/disabled-running", "C08/restart-scope", "C08/isolation":
+			sig = "C08/D26-enable-before-exit-processed"
+			what = "EnableChild started a new child while the exit of the spec's previous child was still unprocessed; the stale exit then cleared the new pid: " + what
+		}
+	}
+	if s.startDuringShutdown && sig == "C08/terminated-with-running-children" {
+		sig = "C08/D27-ofo-start-during-shutdown"
+		what = "one-for-one accepted StartChild/AddChild/EnableChild while it was stopping all children; the new child is not waited for: " + what
+	}
 	s.violated = true
-	s.c.R.Violation(sig, what, s.replay())
+	supSigCount[sig]++
+	s.c.R.Count("violation." + sig)
+	if supSigCount[sig] <= 3 {
+		s.c.R.Violation(sig, what, s.replay())
+	}
 }
 func (s *supSim) idx(name int) int {
 	for i, n := range s.order {
@@ -161,6 +182,10 @@ func (s *supSim) handleAction(o supOut) string {
 				s.c.R.Count("sim.spawn-failed")
 				return "spawnerr"
 			}
+			if !s.inDispatch && s.stopAllPending {
+				s.startDuringShutdown = true
+				s.c.R.Count("sim.ofo-start-during-shutdown")
+			}
 			s.nextPid++
 			pid := s.nextPid
 			s.alive[pid] = name
@@ -182,12 +207,24 @@ func (s *supSim) handleAction(o supOut) string {
 				}
 				return supReasonS(a.Reason)
 			}
+			if s.inDispatch && s.cfg.Kind == "ofo" {
+				s.stopAllPending = true
+			}
 			for _, p := range a.Terminate {
 				if _, ok := s.alive[p.ID]; ok {
 					if _, dup := s.exitSent[p.ID]; !dup {
 						s.exitSent[p.ID] = supReasonS(a.Reason)
 					}
 					s.ev("exit", s.alive[p.ID], p.ID, supReasonS(a.Reason))
+				} else {
+					// SendExit to a process that is already dead (its exit message is still on the way)
+					for _, e := range s.inflight {
+						if e.pid == p.ID {
+							if _, dup := s.exitSent[p.ID]; !dup {
+								s.exitSent[p.ID] = supReasonS(a.Reason)
+							}
+						}
+					}
 				}
 			}
 			return ""
@@ -275,17 +312,10 @@ func (s *supSim) deliver(i int) {
 	_, induced := s.exitSent[e.pid]
 	// D25 exposure (oracle-side classification only): a spontaneous death in rest-for-one without KeepOrder
 	// while a child with a larger index is being stopped
-	if s.cfg.Kind == "rfo" && !s.cfg.KO && !induced {
-		for _, p := range s.pendingStops() {
-			pn, ok := s.alive[p]
-			if !ok {
-				pn = s.kids[p]
-			}
-			if s.idx(pn) > s.idx(name) {
-				s.exposedD25[name] = true
-			}
-		}
+	if s.cfg.Kind == "rfo" && !s.cfg.KO && !induced && s.restartFrom >= 0 && s.idx(name) < s.restartFrom {
+		s.exposedD25[name] = true
 	}
+	nstart := s.countStarts()
 	delete(s.exitSent, e.pid)
 	s.lastExit[name] = e.reason
 	s.handledDeaths++
@@ -301,6 +331,23 @@ func (s *supSim) deliver(i int) {
 	if s.status == 0 && err != "" {
 		s.terminate(err)
 	}
+	// oracle-side: is a restart in progress (stopping phase)?  From the rules and the events only.
+	if s.countStarts() > nstart {
+		s.restartFrom = -1
+	} else if !induced && found && s.enabled[name] && s.restartFrom < 0 &&
+		(s.cfg.Strategy == 2 || (s.cfg.Strategy == 0 && !quiet(e.reason))) {
+		s.restartFrom = s.idx(name)
+	}
+}
+
+func (s *supSim) countStarts() int {
+	n := 0
+	for _, e := range s.events {
+		if e.Kind == "start" {
+			n++
+		}
+	}
+	return n
 }
 
 func (s *supSim) foreign(reason string) {
@@ -342,6 +389,10 @@ func (s *supSim) api(op string, name int, arg int) {
 		}
 	case "enable":
 		o = s.run.enable(name)
+		if o.Err == nil && !o.Panicked && o.A.Do == 1 && s.staleExit(name) {
+			s.staleOverwrite = true
+			s.c.R.Count("sim.enable-before-exit-processed")
+		}
 		if o.Err == nil && !o.Panicked && s.idx(name) >= 0 {
 			s.enabled[name] = true
 		}
@@ -689,6 +740,13 @@ func (s *supSim) episodeChaos() {
 			if sent, ok := s.exitSent[p]; ok && g.Chance(2, 3) {
 				r = sent
 			}
+			if _, induced := s.exitSent[p]; !induced && len(s.pendingStops()) > 0 && (s.cfg.Kind == "afo" || s.cfg.Kind == "rfo") && !g.Chance(1, 12) {
+				// another child dying while one is being stopped: listed regions D18 (KeepOrder) and D25 (rest-for-one);
+				// visited rarely so that other violations are not drowned
+				if s.cfg.KO || s.cfg.Kind == "rfo" {
+					continue
+				}
+			}
 			s.die(p, r)
 		case 4, 5, 6:
 			if len(s.inflight) == 0 {
@@ -706,13 +764,30 @@ func (s *supSim) episodeChaos() {
 	s.settle()
 }
 
+// staleExit: a child of the spec is dead but its exit message has not been processed yet
+func (s *supSim) staleExit(name int) bool {
+	for _, e := range s.inflight {
+		if n, ok := s.kids[e.pid]; ok && n == name {
+			return true
+		}
+	}
+	return false
+}
+
 func (s *supSim) randomAPI() {
 	g := s.g
 	name := g.Intn(7)
 	if len(s.order) > 0 && !g.Chance(1, 8) {
 		name = s.order[g.Intn(len(s.order))]
 	}
-	switch g.Intn(6) {
+	k := g.Intn(6)
+	if k == 3 && s.cfg.Kind != "sofo" && s.staleExit(name) && !g.Chance(1, 10) {
+		return // keep the main sweep mostly out of the listed region D26
+	}
+	if k <= 3 && s.stopAllPending && !g.Chance(1, 10) {
+		return // keep the main sweep mostly out of the listed region D27
+	}
+	switch k {
 	case 0, 1:
 		s.api("start", name, g.Intn(3))
 	case 2:
@@ -874,6 +949,32 @@ func supWitnesses(c *Ctx) []supSeq {
 		s.settle()
 		s.checkSettled()
 		add("D19-"+kind, s)
+	}
+	// D26: EnableChild while the exit of the previous child of the spec is still unprocessed
+	for _, kind := range []string{"ofo", "afo"} {
+		s := newSupSim(c, c.Rng.Fork(), supCfg{Kind: kind, Strategy: 1, K: 5, Period: 5, DAS: true, Children: []supChildIn{{1, false}, {2, false}, {3, true}}})
+		s.initRun()
+		old := pidOf(s, 2)
+		s.api("disable", 2, 0)
+		s.die(old, "shutdown")
+		s.api("enable", 2, 0) // the old child is dead (name free), its exit message not yet handled
+		s.deliver(0)          // the stale exit clears the pid of the new child
+		s.die(pidOf(s, 3), "o1")
+		s.settle()
+		s.checkSettled()
+		add("D26-"+kind, s)
+	}
+	// D27: one-for-one accepts StartChild while it is stopping all children
+	{
+		s := newSupSim(c, c.Rng.Fork(), supCfg{Kind: "ofo", Strategy: 1, K: 5, Period: 5, DAS: true, Children: []supChildIn{{1, false}, {2, false}, {3, true}}})
+		s.initRun()
+		s.die(pidOf(s, 2), "normal")
+		s.settle()
+		s.die(pidOf(s, 3), "o1")
+		s.deliver(0) // significant child gone: exits sent to the rest
+		s.api("start", 2, 0)
+		s.settle()
+		add("D27", s)
 	}
 	return out
 }
